@@ -77,10 +77,15 @@ func runC10(c *core.Ctx) {
 	supersede := !foreign && !opts.disableStapA && t.Chance(1, 8)
 	c.Logf("config=%s mtu=%d stapA=%v avc=%v AUs=%d", c.Config, mtu, !opts.disableStapA, avc, nAU)
 	cons := &h264Consumer{c: c, mtu: mtu, stapA: !opts.disableStapA}
+	varyMTU := !foreign && mtu < 2000 && t.Chance(1, 6)
 	var sendAU func(k int)
 	sendAU = func(k int) {
 		if k >= nAU {
 			return
+		}
+		if varyMTU && k > 0 {
+			mtu = 3 + []int{9, 0, 1, 2, 5, 20, 37, 1197}[t.Intn(8)] + t.Intn(4) // the path MTU changed between access units
+			cons.mtu = mtu
 		}
 		au := genH264AUx(t, mtu, !foreign, &state, supersede)
 		if state != 0 {
